@@ -382,8 +382,40 @@ func blockedOnThreadMutex() bool {
 var memctx = false
 
 type result struct {
-	class  string
-	status string
+	class string
+	res   []rt.Value
+}
+
+// watched calls a Lua function on the main thread from a separate goroutine under a watchdog: it returns
+// wedged = "DEADLOCK" if some goroutine stays blocked in a Thread mutex for 8 consecutive polls (1.2 s), or
+// "TIMEOUT" after 20 s.
+func (e *env) watched(f rt.Value, args ...rt.Value) (r result, wedged string) {
+	done := make(chan result, 1)
+	go func() {
+		class, res, _ := hlib.PCall(e.r, f, args...)
+		done <- result{class, res}
+	}()
+	timeout := time.After(20 * time.Second)
+	tick := time.NewTicker(150 * time.Millisecond)
+	defer tick.Stop()
+	blocked := 0
+	for {
+		select {
+		case r = <-done:
+			return r, ""
+		case <-tick.C:
+			if blockedOnThreadMutex() {
+				blocked++
+				if blocked >= 8 {
+					return r, "DEADLOCK"
+				}
+			} else {
+				blocked = 0
+			}
+		case <-timeout:
+			return r, "TIMEOUT"
+		}
+	}
 }
 
 func (e *env) runScript(script []action, expectSusp func(final []string) int) (line string, broken bool) {
@@ -399,49 +431,20 @@ func (e *env) runScript(script []action, expectSusp func(final []string) int) (l
 	if memctx {
 		mem = 1 << 40
 	}
-	done := make(chan result, 1)
-	go func() {
-		class, res, _ := hlib.PCall(e.r, e.main, rt.IntValue(limit), rt.IntValue(mem))
-		st := ""
-		if class == hlib.OK && len(res) == 1 && res[0].Type() == rt.StringType {
-			st = string(res[0].AsString())
-		}
-		done <- result{class, st}
-	}()
 	outcome := ""
-	timeout := time.After(20 * time.Second)
-	tick := time.NewTicker(150 * time.Millisecond)
-	defer tick.Stop()
-	blocked := 0
-wait:
-	for {
-		select {
-		case r := <-done:
-			switch {
-			case r.class == hlib.OK && (r.status == "done" || r.status == "killed"):
-				outcome = r.status
-			case r.class == hlib.OK:
-				outcome = "status-" + r.status
-			case r.class == hlib.KILLED:
-				outcome = "killed-escaped"
-			default:
-				outcome = strings.ToUpper(r.class)
-			}
-			break wait
-		case <-tick.C:
-			if blockedOnThreadMutex() {
-				blocked++
-				if blocked >= 8 {
-					outcome = "DEADLOCK"
-					break wait
-				}
-			} else {
-				blocked = 0
-			}
-		case <-timeout:
-			outcome = "TIMEOUT"
-			break wait
-		}
+	r, wedged := e.watched(e.main, rt.IntValue(limit), rt.IntValue(mem))
+	switch {
+	case wedged != "":
+		outcome = wedged
+	case r.class == hlib.OK && len(r.res) == 1 && r.res[0].Type() == rt.StringType &&
+		(string(r.res[0].AsString()) == "done" || string(r.res[0].AsString()) == "killed"):
+		outcome = string(r.res[0].AsString())
+	case r.class == hlib.OK:
+		outcome = "status-odd"
+	case r.class == hlib.KILLED:
+		outcome = "killed-escaped"
+	default:
+		outcome = strings.ToUpper(r.class)
 	}
 	ev := strings.Join(e.events, " ; ")
 	toks := make([]string, len(script))
@@ -454,7 +457,7 @@ wait:
 	}
 	var finals []string
 	for k := 1; k <= 3; k++ {
-		class, res, _ := hlib.PCall(e.r, e.final, rt.IntValue(int64(k)))
+		class, res, _ := hlib.PCall(e.r, e.final, rt.IntValue(int64(k))) // coroutine.status takes no mutex
 		s := "?"
 		if class == hlib.OK && len(res) == 1 {
 			s = string(res[0].AsString())
@@ -463,7 +466,10 @@ wait:
 	}
 	want := expectSusp(finals)
 	d1 := settle(before+want) - before
-	hlib.PCall(e.r, e.cleanup)
+	if _, w := e.watched(e.cleanup); w != "" {
+		// closing the still-suspended coroutines wedged: report it as the script's outcome
+		return fmt.Sprintf("%s => %s | F %s | G %d - | %s", strings.Join(toks, " "), ev, strings.Join(finals, " "), d1, "cleanup-"+w), true
+	}
 	d2 := settle(before) - before
 	// pcall pushes a frame on the runtime-wide context stack: a coroutine left suspended inside a pcall leaves
 	// that stack unbalanced, and an escaped kill leaves the runtime inside a dead context — do not reuse the runtime
@@ -489,17 +495,28 @@ func countSuspended(finals []string) int {
 }
 
 type runner struct {
-	e *env
-	n int
+	e      *env
+	n      int
+	wedged int // scripts that ended in DEADLOCK / TIMEOUT
 }
 
+// after this many wedged scripts the run stops: each one costs seconds and leaks goroutines, and the
+// check has its failing inputs already
+const maxWedged = 6
+
 func (r *runner) run(script []action) {
+	if r.wedged >= maxWedged {
+		return
+	}
 	if r.e == nil || r.e.used >= 2000 {
 		r.e = newEnv()
 	}
 	r.e.used++
 	line, broken := r.e.runScript(script, countSuspended)
 	hlib.Emit(line)
+	if strings.HasSuffix(line, "DEADLOCK") || strings.HasSuffix(line, "TIMEOUT") {
+		r.wedged++
+	}
 	if broken {
 		hlib.Out.Flush()
 		r.e = nil
@@ -581,6 +598,9 @@ func random(r *runner, count, maxlen int) {
 				a = action{op: "c", k: created}
 				if rng.Chance(30) {
 					a.mode, hasTbc = 1, true
+					if rng.Chance(25) {
+						a.mode = 2 // the guard's __close handler resumes a fresh coroutine
+					}
 				}
 				if rng.Chance(25) {
 					a.op = "w"
